@@ -24,7 +24,7 @@ use super::{
         Client, Connection, ConnectionFactory, EventLoop, MqttPollResult,
     },
     status_reporter::MqttStatusReporter,
-    target::MqttRunner,
+    target::{Mqtt, MqttRunner},
 };
 use crate::{
     comms::{Link, Terminated},
@@ -211,4 +211,22 @@ pub fn output_stream_message_to_msg(
     MqttRunner::<CaptureClient>::new(config, component)
         .output_stream_message_to_msg(osm)
         .map(|m| (m.topic, m.content))
+}
+
+/// The `Reconfigure` command the manager sends to a running mqtt-out target
+/// when its configuration changed: same client id and destination (so the
+/// target keeps its MQTT client), the given topic template and QoS, `source`
+/// as its (new) link to the upstream gate.
+pub fn reconfigure_command(
+    client_id: &str,
+    topic_template: &str,
+    qos: i32,
+    source: Link,
+) -> TargetCommand {
+    TargetCommand::Reconfigure {
+        new_config: crate::targets::Target::Mqtt(Mqtt::verif_new(
+            NonEmpty::new(source.into()),
+            mk_config(client_id, topic_template, qos),
+        )),
+    }
 }
